@@ -17,8 +17,23 @@ EXPLANATION = (
 )
 
 
-def loop_direction(it, base):
-    """'forward' / 'reverse' / None for an iteration expression over `base` (source text)."""
+def loop_direction(it, base, fn_node=None):
+    """'forward' / 'reverse' / None for an iteration expression over `base` (source text).  With fn_node, a local name that was
+    assigned once (a snapshot list put into a variable first) is looked through."""
+    def res(e):
+        if fn_node is not None and isinstance(e, ast.Name):
+            vals = common.assigned_values(fn_node, e.id)
+            if len(vals) == 1 and vals[0][0] == "expr":
+                return vals[0][1]
+        return e
+    it = res(it)
+    if isinstance(it, ast.Call) and q.call_name(it) == "reversed" and it.args:
+        inner = res(it.args[0])
+        d_in = loop_direction(inner, base)
+        return {"forward": "reverse", "reverse": "forward"}.get(d_in)
+    if isinstance(it, ast.Subscript) and q.src(it.slice) == "::-1":
+        d_in = loop_direction(res(it.value), base)
+        return {"forward": "reverse", "reverse": "forward"}.get(d_in)
     s = q.src(it)
     fw = (base, base + ".values()", "list(%s.values())" % base, "list(%s)" % base, base + ".items()")
     if s in fw:
@@ -57,7 +72,7 @@ def run(R):
                         "the one-shot iterator %s is consumed exactly once (by the hook loop)" % local_name,
                         "the one-shot iterator `%s = %s` is used %d times in %s: whatever consumes it first (e.g. a debug dump) leaves the hook loop with nothing - "
                         "no context is %sd" % (local_name, q.src(it)[:40], len(uses), mname, hook))
-        d = loop_direction(it, "self._contexts")
+        d = loop_direction(it, "self._contexts", m.node)
         R.need(d is not None, "idiom: unrecognised iteration `%s` in %s" % (q.src(loops[0].iter), mname))
         R.check(d == want, "C07.DIRECTION", m.qualname, R.site(m, loops[0]),
                 "%s hooks run in %s entry order" % (hook, "reverse" if want == "reverse" else ""),
